@@ -40,7 +40,8 @@ def main():
         if sum(1 for m in rep["mismatches"] if m["key"] == key) < 3:
             rep["mismatches"].append(dict(key=key, **d))
 
-    settings = [dict(POP=7.8e9, KD=2100, FD=47, PD=51), dict(POP=1e6 / 63.0 * 1e3, KD=2100, FD=47, PD=51),
+    # (the second differs from the first in the fat and protein needs only: same calories, same population)
+    settings = [dict(POP=7.8e9, KD=2100, FD=47, PD=51), dict(POP=7.8e9, KD=2100, FD=61.7, PD=59.5), dict(POP=1e6 / 63.0 * 1e3, KD=2100, FD=47, PD=51),
                 dict(POP=1234, KD=1, FD=1, PD=1),
                 # populations that are not whole numbers (a table cell after a unit change: Senegal's is 16743929.999999998)
                 dict(POP=1500.5, KD=2100, FD=47, PD=51), dict(POP=16743929.999999998, KD=2100, FD=47, PD=51)]
@@ -188,6 +189,19 @@ def main():
                 bad("anchor:extracted_milk:units", dict(units=list(ex_.milk.units)))
         except BaseException as ex:  # noqa
             bad("anchor:extracted_milk:exception", dict(exc=repr(ex)[:160], par=par))
+        # a conversion is a function of the quantity as it is now: converting, changing the quantity (or the result), and converting again
+        try:
+            h_ = Food(np.array([req.kcals, 2 * req.kcals]), np.array([req.fat, 2 * req.fat]), np.array([req.protein, 2 * req.protein]),
+                      "billion kcals each month", "thousand tons each month", "thousand tons each month").in_units_percent_fed()
+            first = h_.in_units_bil_kcals_thou_tons_thou_tons_per_month()
+            first.kcals[0] = -7.0                      # (the caller edits what it was given)
+            h_.kcals = h_.kcals * 3.0                  # (... and the quantity changes)
+            second = h_.in_units_bil_kcals_thou_tons_thou_tons_per_month()
+            rep["in_units_checks"] += 1
+            if not (rel(second.kcals[0], 3 * req.kcals) and rel(second.kcals[1], 6 * req.kcals) and rel(second.fat[1], 2 * req.fat)):
+                bad("wrapper:history:in_units_bil_kcals_thou_tons_thou_tons_per_month", dict(par=par, got=[float(x) for x in second.kcals]))
+        except BaseException as ex:  # noqa
+            bad("wrapper:exception:history", dict(exc=repr(ex)[:120]))
         # the named wrappers are the generic conversion to their three target units - also for a series of small amounts
         tiny = Food(np.array([2e-3, 3.3e-7, 41.0]), np.array([1e-4, 7.7e-8, 3.0]), np.array([5e-5, 1.1e-8, 2.0]),
                     "billion kcals each month", "thousand tons each month", "thousand tons each month")
